@@ -43,17 +43,20 @@ def bc64_bits(s, nbits):
 
 
 def ab64(s):
-    """passlib's 'adapted base64': standard alphabet with '.' for '+', no padding. Read for the BITS it carries: characters
-    outside the alphabet are skipped, as non-validating base64 decoders do (a respelling of the same bits, see DESIGN 10.2)"""
-    t = re.sub(r"[^A-Za-z0-9+/]", "", s.replace(".", "+"))
-    if len(t) % 4 == 1:
+    """passlib's 'adapted base64': standard alphabet with '.' for '+', no padding. Strict about the alphabet (a character outside
+    it is not part of any documented spelling); the unused low bits of the last character are read for the bits they carry"""
+    t = s.replace(".", "+")
+    if t.endswith("=") and 1 <= len(t) - len(t.rstrip("=")) <= 2:
+        t = t.rstrip("=")  # (explicit base64 padding at the very end: the padding the format leaves out)
+    if not re.fullmatch(r"[A-Za-z0-9+/]*", t, re.A) or len(t) % 4 == 1:
         raise ValueError
     return base64.b64decode(t + "=" * (-len(t) % 4))
 
 
 def b64std(s):
-    t = re.sub(r"[^A-Za-z0-9+/]", "", s)
-    if len(t) % 4 == 1:
+    """standard base64, '=' padding at the end only (present or left out)"""
+    t = s.rstrip("=")
+    if len(s) - len(t) > 2 or not re.fullmatch(r"[A-Za-z0-9+/]*", t, re.A) or len(t) % 4 == 1:
         raise ValueError
     return base64.b64decode(t + "=" * (-len(t) % 4))
 
@@ -65,45 +68,45 @@ def _hex(s):
 
 
 _RX = [
-    ("bcrypt_sha256", re.compile(r"^\$bcrypt-sha256\$v=([ \t+_0-9]+),t=(2[ab]?|2y),r=([ \t+_0-9]+)\$(.{22})\$(.{31})$")),
-    ("bcrypt_sha256_v1", re.compile(r"^\$bcrypt-sha256\$(2[ab]?|2y),([ \t+_0-9]+)\$(.{22})\$(.{31})$")),
-    ("bcrypt", re.compile(r"^\$(2[abxy]?)\$(\d\d)\$(.{22})(.{31})$")),
-    ("sha256_crypt", re.compile(rf"^\$5\$(?:rounds=([ \t+_0-9]+)\$)?({_H}{{0,16}})\$({_H}{{43}})$")),
-    ("sha512_crypt", re.compile(rf"^\$6\$(?:rounds=([ \t+_0-9]+)\$)?({_H}{{0,16}})\$({_H}{{86}})$")),
-    ("md5_crypt", re.compile(rf"^\$1\$({_H}{{0,8}})\$({_H}{{22}})$")),
-    ("apr_md5_crypt", re.compile(rf"^\$apr1\$({_H}{{0,8}})\$({_H}{{22}})$")),
-    ("sha1_crypt", re.compile(rf"^\$sha1\$([ \t+_0-9]+)\$({_H}{{0,64}})\$({_H}{{28}})$")),
-    ("pbkdf2_sha1", re.compile(r"^\$pbkdf2\$([ \t+_0-9]+)\$([^$]*)\$([^$]+)$")),
-    ("pbkdf2_sha256", re.compile(r"^\$pbkdf2-sha256\$([ \t+_0-9]+)\$([^$]*)\$([^$]+)$")),
-    ("pbkdf2_sha512", re.compile(r"^\$pbkdf2-sha512\$([ \t+_0-9]+)\$([^$]*)\$([^$]+)$")),
-    ("phpass", re.compile(rf"^\$[PH]\$({_H})({_H}{{8}})({_H}{{22}})$")),
-    ("scrypt_7", re.compile(rf"^\$7\$({_H})({_H}{{5}})({_H}{{5}})([^$]*)\$({_H}+)$")),
-    ("scrypt", re.compile(r"^\$scrypt\$ln=([ \t+_0-9]+),r=([ \t+_0-9]+),p=([ \t+_0-9]+)\$([^$]*)\$([^$]+)$")),
-    ("ldap_salted_sha1", re.compile(r"^\{SSHA\}(.+)$", re.I | re.S)),
-    ("ldap_sha1", re.compile(r"^\{SHA\}(.+)$", re.I | re.S)),
-    ("django_pbkdf2_sha256", re.compile(r"^pbkdf2_sha256\$([ \t+_0-9]+)\$([^$]+)\$([^$]+)$", re.S)),
-    ("django_salted_sha1", re.compile(r"^sha1\$([^$]*)\$([0-9a-fA-F]{40})$")),
-    ("mysql41", re.compile(r"^\*([0-9a-fA-F]{40})$")),
-    ("bsdi_crypt", re.compile(rf"^_({_H}{{4}})({_H}{{4}})({_H}{{11}})$")),
-    ("des_crypt", re.compile(rf"^({_H}{{2}})({_H}{{11}})$")),
-    ("sun_md5_crypt", re.compile(rf"^\$md5(?:,rounds=([ \t+_0-9]+))?\$([^$]*)(\$\$|\$)({_H}{{22}})$")),
-    ("ldap_salted_md5", re.compile(r"^\{SMD5\}(.+)$", re.I | re.S)),
-    ("ldap_salted_sha256", re.compile(r"^\{SSHA256\}(.+)$", re.I | re.S)),
-    ("ldap_salted_sha512", re.compile(r"^\{SSHA512\}(.+)$", re.I | re.S)),
-    ("ldap_md5", re.compile(r"^\{MD5\}(.+)$", re.I | re.S)),
-    ("django_salted_md5", re.compile(r"^md5\$([^$]*)\$([0-9a-fA-F]{32})$")),
-    ("django_pbkdf2_sha1", re.compile(r"^pbkdf2_sha1\$([ \t+_0-9]+)\$([^$]+)\$([^$]+)$", re.S)),
-    ("atlassian_pbkdf2_sha1", re.compile(r"^\{PKCS5S2\}(.+)$", re.I | re.S)),
-    ("grub_pbkdf2_sha512", re.compile(r"^grub\.pbkdf2\.sha512\.([ \t+_0-9]+)\.([0-9a-fA-F]*)\.([0-9a-fA-F]+)$")),
-    ("mssql2000", re.compile(r"^0[xX]0100([0-9a-fA-F]{8})([0-9a-fA-F]{40})([0-9a-fA-F]{40})$")),
-    ("mssql2005", re.compile(r"^0[xX]0100([0-9a-fA-F]{8})([0-9a-fA-F]{40})$")),
-    ("oracle11", re.compile(r"^S:([0-9a-fA-F]{40})([0-9a-fA-F]{20})$", re.I)),
-    ("dlitz_pbkdf2_sha1", re.compile(rf"^\$p5k2\$([ \t+_0-9a-fA-F]*)\$({_H}*)\$([^$]+)$")),
-    ("django_des_crypt", re.compile(rf"^crypt\$({_H}*)\$({_H}{{2}})({_H}{{11}})$")),
-    ("bigcrypt", re.compile(rf"^({_H}{{2}})((?:{_H}{{11}})+)$")),
-    ("scram", re.compile(r"^\$scram\$([ \t+_0-9]+)\$([^$]*)\$([^$]+)$")),
-    ("cisco_type7", re.compile(r"^([ \t+_0-9]{2})((?:[0-9A-Fa-f]{2})*)$")),
-    ("fshp", re.compile(r"^\{FSHP(\d+)\|(\d+)\|(\d+)\}([A-Za-z0-9+/]+={0,3})$")),
+    ("bcrypt_sha256", re.compile(r"^\$bcrypt-sha256\$v=([ \t+_0-9]+),t=(2[ab]?|2y),r=([ \t+_0-9]+)\$(.{22})\$(.{31})\Z")),
+    ("bcrypt_sha256_v1", re.compile(r"^\$bcrypt-sha256\$(2[ab]?|2y),([ \t+_0-9]+)\$(.{22})\$(.{31})\Z")),
+    ("bcrypt", re.compile(r"^\$(2[abxy]?)\$(\d\d)\$(.{22})(.{31})\Z")),
+    ("sha256_crypt", re.compile(rf"^\$5\$(?:rounds=([ \t+_0-9]+)\$)?({_H}{{0,16}})\$({_H}{{43}})\Z")),
+    ("sha512_crypt", re.compile(rf"^\$6\$(?:rounds=([ \t+_0-9]+)\$)?({_H}{{0,16}})\$({_H}{{86}})\Z")),
+    ("md5_crypt", re.compile(rf"^\$1\$({_H}{{0,8}})\$({_H}{{22}})\Z")),
+    ("apr_md5_crypt", re.compile(rf"^\$apr1\$({_H}{{0,8}})\$({_H}{{22}})\Z")),
+    ("sha1_crypt", re.compile(rf"^\$sha1\$([ \t+_0-9]+)\$({_H}{{0,64}})\$({_H}{{28}})\Z")),
+    ("pbkdf2_sha1", re.compile(r"^\$pbkdf2\$([ \t+_0-9]+)\$([^$]*)\$([^$]+)\Z")),
+    ("pbkdf2_sha256", re.compile(r"^\$pbkdf2-sha256\$([ \t+_0-9]+)\$([^$]*)\$([^$]+)\Z")),
+    ("pbkdf2_sha512", re.compile(r"^\$pbkdf2-sha512\$([ \t+_0-9]+)\$([^$]*)\$([^$]+)\Z")),
+    ("phpass", re.compile(rf"^\$[PH]\$({_H})({_H}{{8}})({_H}{{22}})\Z")),
+    ("scrypt_7", re.compile(rf"^\$7\$({_H})({_H}{{5}})({_H}{{5}})([^$]*)\$({_H}+)\Z")),
+    ("scrypt", re.compile(r"^\$scrypt\$ln=([ \t+_0-9]+),r=([ \t+_0-9]+),p=([ \t+_0-9]+)\$([^$]*)\$([^$]+)\Z")),
+    ("ldap_salted_sha1", re.compile(r"^\{SSHA\}(.+)\Z", re.I | re.S)),
+    ("ldap_sha1", re.compile(r"^\{SHA\}(.+)\Z", re.I | re.S)),
+    ("django_pbkdf2_sha256", re.compile(r"^pbkdf2_sha256\$([ \t+_0-9]+)\$([^$]+)\$([^$]+)\Z", re.S)),
+    ("django_salted_sha1", re.compile(r"^sha1\$([^$]*)\$([0-9a-fA-F]{40})\Z")),
+    ("mysql41", re.compile(r"^\*([0-9a-fA-F]{40})\Z")),
+    ("bsdi_crypt", re.compile(rf"^_({_H}{{4}})({_H}{{4}})({_H}{{11}})\Z")),
+    ("des_crypt", re.compile(rf"^({_H}{{2}})({_H}{{11}})\Z")),
+    ("sun_md5_crypt", re.compile(rf"^\$md5(?:,rounds=([ \t+_0-9]+))?\$([^$]*)(\$\$|\$)({_H}{{22}})\Z")),
+    ("ldap_salted_md5", re.compile(r"^\{SMD5\}(.+)\Z", re.I | re.S)),
+    ("ldap_salted_sha256", re.compile(r"^\{SSHA256\}(.+)\Z", re.I | re.S)),
+    ("ldap_salted_sha512", re.compile(r"^\{SSHA512\}(.+)\Z", re.I | re.S)),
+    ("ldap_md5", re.compile(r"^\{MD5\}(.+)\Z", re.I | re.S)),
+    ("django_salted_md5", re.compile(r"^md5\$([^$]*)\$([0-9a-fA-F]{32})\Z")),
+    ("django_pbkdf2_sha1", re.compile(r"^pbkdf2_sha1\$([ \t+_0-9]+)\$([^$]+)\$([^$]+)\Z", re.S)),
+    ("atlassian_pbkdf2_sha1", re.compile(r"^\{PKCS5S2\}(.+)\Z", re.I | re.S)),
+    ("grub_pbkdf2_sha512", re.compile(r"^grub\.pbkdf2\.sha512\.([ \t+_0-9]+)\.([0-9a-fA-F]*)\.([0-9a-fA-F]+)\Z")),
+    ("mssql2000", re.compile(r"^0[xX]0100([0-9a-fA-F]{8})([0-9a-fA-F]{40})([0-9a-fA-F]{40})\Z")),
+    ("mssql2005", re.compile(r"^0[xX]0100([0-9a-fA-F]{8})([0-9a-fA-F]{40})\Z")),
+    ("oracle11", re.compile(r"^S:([0-9a-fA-F]{40})([0-9a-fA-F]{20})\Z", re.I)),
+    ("dlitz_pbkdf2_sha1", re.compile(rf"^\$p5k2\$([ \t+_0-9a-fA-F]*)\$({_H}*)\$([^$]+)\Z")),
+    ("django_des_crypt", re.compile(rf"^crypt\$({_H}*)\$({_H}{{2}})({_H}{{11}})\Z")),
+    ("bigcrypt", re.compile(rf"^({_H}{{2}})((?:{_H}{{11}})+)\Z")),
+    ("scram", re.compile(r"^\$scram\$([ \t+_0-9]+)\$([^$]*)\$([^$]+)\Z")),
+    ("cisco_type7", re.compile(r"^([ \t+_0-9]{2})((?:[0-9A-Fa-f]{2})*)\Z")),
+    ("fshp", re.compile(r"^\{FSHP(\d+)\|(\d+)\|(\d+)\}([A-Za-z0-9+/]+={0,3})\Z")),
 ]
 
 
